@@ -262,6 +262,9 @@ class Lib:
         kind = d.kind
         if isinstance(sl, ast.Tuple):
             parts = sl.elts
+            if d.ndim == 2 and len(parts) == 2 and isinstance(parts[0], ast.Slice) and (parts[0].lower is not None or parts[0].upper is not None) \
+                    and isinstance(parts[1], ast.Slice) and parts[1].lower is None and parts[1].upper is None and parts[1].step is None:
+                return self.slice_store(E, d, parts[0], v, va, st, node)          # A[lo:hi, :] = W
             ev = [None if (isinstance(x, ast.Slice) and x.lower is None and x.upper is None) else E.eval(x, st) for x in parts]
             if len(ev) == d.ndim and all(x is not None and is_scalar(x) for x in ev):
                 ii = [to_int(x) for x in ev]
@@ -304,7 +307,7 @@ class Lib:
         if isinstance(sl, ast.Slice):
             if sl.lower is None and sl.upper is None:
                 return ArrData(d.shape, lambda *i: val_at(*i), kind)
-            raise Unsupported("slice store")
+            return self.slice_store(E, d, sl, v, va, st, node)
         idx = E.eval(sl, st)
         if is_scalar(idx) and not _isbool(idx):
             i0 = to_int(idx)
@@ -368,6 +371,21 @@ class Lib:
         if isinstance(idx, Opaque):
             return ArrData(d.shape, fresh_sel("st", d.kind, d.ndim), d.kind)
         raise Unsupported("store " + unparse(node))
+
+    def slice_store(self, E, d, sl, v, va, st, node):
+        """a[lo:hi] = w (first axis, no step): entry lo + t becomes w[t]; a scalar is broadcast. numpy raises on a length mismatch."""
+        if sl.step is not None:
+            raise Unsupported("slice store with step")
+        lo = to_int(E.eval(sl.lower, st)) if sl.lower is not None else z3.IntVal(0)
+        hi = to_int(E.eval(sl.upper, st)) if sl.upper is not None else to_int(d.shape[0])
+        old = d.sel
+        inside = lambda i: z3.And(lo <= i, i < hi)
+        if va is not None and va.ndim == d.ndim:
+            st.assume(z3.Implies(z3.And(0 <= lo, lo <= hi, hi <= to_int(d.shape[0])), to_int(va.shape[0]) == hi - lo))
+            return ArrData(d.shape, lambda i, *r: _ite_val(inside(i), va.sel(i - lo, *r), old(i, *r)), d.kind)
+        if va is None and is_scalar(v):
+            return ArrData(d.shape, lambda i, *r: _ite_val(inside(i), v, old(i, *r)), _join_kind(d.kind, v))
+        raise Unsupported("slice store of " + repr(v))
 
     # ------------------------------------------------------------------ comprehension
     def comprehension(self, E, e, st):
@@ -1414,6 +1432,17 @@ def register_builtins(L):
         ax = kw.get("axis", args[2] if len(args) > 2 else None)
         pa = as_array(pv, st) if isinstance(pv, Ref) else None
         one = pa is not None and pa.ndim == 1 and pa.kind == "i" and z3.is_true(z3.simplify(to_int(pa.shape[0]) == 1))
+        if a is not None and pa is not None and pa.ndim == 1 and pa.kind == "i" and not one and ((a.ndim == 1 and ax in (None, 0)) or (a.ndim == 2 and ax == 0)):
+            # several positions: only the LENGTH is stated -- len(a) - len(p) when the positions are pairwise distinct and in range (every
+            # position is removed once), between len(a) - len(p) and len(a) otherwise; the remaining entries are unconstrained here
+            _used(E, "np.delete of several positions (length only; remaining entries unconstrained)")
+            n, m = to_int(a.shape[0]), to_int(pa.shape[0])
+            L_ = fresh("deleted_len", I)
+            t, u = z3.Ints("dl_t dl_u")
+            distinct = z3.ForAll([t, u], z3.Implies(z3.And(0 <= t, t < u, u < m), to_int(pa.sel(t)) != to_int(pa.sel(u))))
+            inrange = z3.ForAll([t], z3.Implies(z3.And(0 <= t, t < m), z3.And(0 <= to_int(pa.sel(t)), to_int(pa.sel(t)) < n)))
+            st.assume(L_ >= 0, L_ <= n, L_ >= n - m, z3.Implies(z3.And(distinct, inrange), L_ == n - m))
+            return st.alloc(ArrData((L_,) + tuple(a.shape[1:]), fresh_sel("deleted", a.kind, a.ndim), a.kind))
         if a is None or not (one or (is_scalar(pv) and is_int_like(pv))) or not ((a.ndim == 1 and ax in (None, 0)) or (a.ndim == 2 and ax == 0)):
             return _np_pure(E, st, args, kw, node)
         _used(E, "np.delete of one position (the other entries keep their order)")
